@@ -104,6 +104,8 @@ MUTANTS = [
          old='    A = U.transpose().block(0, 0, dd.rank(), U.rows()) * L.transpose() * P;', new="    A = U.transpose().block(0, 0, dd.dimensionOfKernel(), U.rows()) * L.transpose() * P;"),
     dict(property="C04", name="reduce-keeps-rank-minus-one-rows", rule="R-C04-11", file="src/program/util.cpp",
          old='    A = U.transpose().block(0, 0, dd.rank(), U.rows()) * L.transpose() * P;', new="    A = U.transpose().block(0, 0, dd.rank() - 1, U.rows()) * L.transpose() * P;"),
+    dict(property="C11", name="right-hinge-overwrites-outputs", rule="R-C11-9", file="src/wlearner/hinge.cpp",
+         old='                        if (value >= m_threshold)\n                        {\n                            outputs.vector(i) += w * value + b;', new='                        if (value >= m_threshold)\n                        {\n                            outputs.vector(i) = w * value + b;'),
     dict(property="C17", name="stop-set-outside-lock", rule="R-C17-1", file="src/core/parallel.cpp",
          old="""    {
         const std::scoped_lock lock(m_queue.m_mutex);
